@@ -565,6 +565,11 @@ ApplyDir(rules, d) ==
     [] d.d = "SecRuleUpdateTargetByTag" -> [k \in 1..Len(rules) |-> IF HasTag(rules[k], d.s) THEN UpdRuleTargets(rules[k], d.tgts) ELSE rules[k]]
     [] d.d = "SecRuleUpdateActionById" -> [k \in 1..Len(rules) |-> IF DirSelectsById(d, rules[k]) THEN UpdRuleActions(rules[k], d.acts) ELSE rules[k]]
     [] OTHER -> rules
+\* an update that names rules by id none of which exists (any more) at that point of the configuration: whether
+\* that is an error or a no-op is left open (Choice_UpdateOfMissingRule: the code refuses the configuration)
+DirMisses(rules, d) == d.d \in {"SecRuleUpdateTargetById", "SecRuleUpdateActionById"} /\ \A k \in 1..Len(rules) : ~DirSelectsById(d, rules[k])
+RECURSIVE DirsMayBeRefused(_, _)
+DirsMayBeRefused(rules, dirs) == dirs # << >> /\ (DirMisses(rules, Head(dirs)) \/ DirsMayBeRefused(ApplyDir(rules, Head(dirs)), Tail(dirs)))
 RECURSIVE ApplyDirs(_, _)
 ApplyDirs(rules, dirs) == IF dirs = << >> THEN rules ELSE ApplyDirs(ApplyDir(rules, Head(dirs)), Tail(dirs))
 
